@@ -11,9 +11,9 @@ T0 = datetime(2020, 1, 1, tzinfo=UTC)
 # exact duplicates arise because points draw from this small grid; adjacent microseconds and far-apart values
 TIMES = [T0 + timedelta(microseconds=i) for i in (0, 1, 2)] + [T0 + timedelta(days=d) for d in (-20000, -1, 1, 400)] + [T0 + timedelta(seconds=1, microseconds=999999)]
 OFFSETS = [UTC, timezone(timedelta(hours=5, minutes=45)), timezone(timedelta(hours=-8)), timezone(timedelta(hours=10, minutes=30))]
-MEAS = ["_default", "m1", "m2", "a,b", "mé"]
+MEAS = ["_default", "m1", "m2", "a,b", "mé", "m1 "]  # incl. a name that differs from another only by trailing white space
 TKEYS = ["a", "b", "t x"]
-TVALS = [None, "", "x", "X", "xy", "x\ny", "a,b", "x\u2028y", "x\x1dy\x85"]
+TVALS = [None, "", "x", "X", "xy", "x\ny", "a,b", "x\u2028y", "x\x1dy\x85", '"q']
 FKEYS = ["a", "f", "_t"]
 FVALS = [None, 0, -0.0, 1, 2, -1.5, 2.0, math.inf]
 REGEXES = ["x", "^x", ".*", "[xy]$", "X", "x.y", "^$", "m[12]", "a,"]
@@ -21,8 +21,8 @@ REFLAGS = [0, 2, 16]  # none, IGNORECASE, DOTALL
 
 
 # sampling weights: common values repeated so that equality leaves hit often, rare/awkward values still occur
-W_MEAS = ["m1", "m1", "m1", "_default", "_default", "a,b", "m2", "mé"]
-W_TVALS = [None, "", "x", "x", "x", "X", "xy", "xy", "x\ny", "a,b", "x\u2028y", "x\x1dy\x85"]  # incl. characters str.splitlines() breaks on but csv does not
+W_MEAS = ["m1", "m1", "m1", "_default", "_default", "a,b", "m2", "mé", "m1 "]
+W_TVALS = [None, "", "x", "x", "x", "X", "xy", "xy", "x\ny", "a,b", "x\u2028y", "x\x1dy\x85", '"q']  # incl. a leading quote character and characters str.splitlines() breaks on but csv does not
 W_FVALS = [None, 0, -0.0, 1, 1, 1, 2, 2, -1.5, 2.0, math.inf]
 W_TKEYS = ["a", "a", "a", "b", "t x"]
 W_FKEYS = ["a", "a", "a", "f", "_t"]
@@ -96,7 +96,7 @@ def leaf(draw, time_pool=TIMES, allow_maps=True, allow_noop=True):
     elif r < 13 and attr in ("tag", "field"):
         test = ["exists"]
     elif r < 15:
-        name = draw(st.sampled_from({"time": ["year_even", "truthy"], "meas": ["is_str", "truthy", "len_lt"], "tag": ["is_none", "truthy", "is_str", "len_lt"], "field": ["is_none", "truthy", "total_even"]}[attr]))
+        name = draw(st.sampled_from({"time": ["year_even", "truthy"], "meas": ["is_str", "truthy", "len_lt", "strlen"], "tag": ["is_none", "truthy", "is_str", "len_lt", "strlen"], "field": ["is_none", "truthy", "total_even"]}[attr]))
         test = ["test", name, [2] if name == "len_lt" else []]
     elif r < 18 and attr in ("tag", "meas"):
         test = [draw(st.sampled_from(["matches", "search"])), draw(st.sampled_from(REGEXES)), draw(st.sampled_from(REFLAGS))]
